@@ -4,6 +4,8 @@ import Spine.HBCounter
 import Spine.HBCounterWeakest
 import Spine.HBRefresh
 import Spine.HBMulti
+import Spine.HBPace
+import Spine.HBStamp
 import Spine.Period
 /-!
 # C16 — heartbeat: monotone, periodic, stoppable
@@ -41,7 +43,15 @@ Status of the clauses of the statement
   independently of the membership of the entity in the device's list); the harness maps every `RemoveEntity` — on a
   listed, a removed or a never-listed entity — to the stop events of the model, and the monitor applies the stop
   clause after every such call.
-* "a current timestamp": not modelled (time.Now at the refresh); monitored on the real trace only.
+* "a current timestamp": second deepening round — `Spine.HBS`: the text (wall-clock reading rounded to the second +
+  literal `Z`) denotes the instant of the refresh, in every local zone, iff the reading is the UTC one
+  (`c16_timestamp_current`, `c16_timestamp_local_reading_refuted`, `c16_timestamp_current_iff`); the harness runs the
+  whole test in a process whose local zone is UTC+2, reads the text on the wire with its own reader and compares it
+  with the model's instant and with its own clock.
+* period IN TIME (second round): `Spine.HBP` — with one ticker created before the loop the refreshes begin exactly one
+  period apart however long a refresh takes (≤ a period); with a timer armed per iteration the gap is period + refresh
+  time and exceeds every timeout ≤ 2 s (`c16_refresh_gap_le_timeout`, `c16_timer_per_iteration_refuted`); which of the
+  two the tree under test is, is regenerated (`Props/C16Gen`) and measured (worlds with a slow subscriber).
 -/
 namespace Spine.Props.C16
 open Spine
@@ -278,5 +288,50 @@ theorem c16_at_most_one_refresh_pending (evs : List HBM.Ev) (hp : HBM.promptAll 
   (HBM.run_inv evs {} HBM.inv_init hp).excl i j hij
 
 example : HBM.credit ((HBM.run [.start, .tick 0, .take 0, .stop, .start]).strm 0) = 1 := by decide
+
+/-- "refreshed periodically, with a period not exceeding the announced timeout" IN TIME: the loop is paced by one
+    ticker created before it; whatever time each refresh takes (`r k`, at most a period — a subscriber whose connection
+    is slow to write), two consecutive refreshes begin exactly `period timeout` apart, which is at most the timeout. -/
+theorem c16_refresh_gap_le_timeout (t : Nat) (ht : 0 < t) (r : Nat → Nat) (hr : ∀ k, r k ≤ HB.period t) (k : Nat) :
+    HBP.begins .ticker (HB.period t) r (k + 1) - HBP.begins .ticker (HB.period t) r k = HB.period t ∧
+    HBP.begins .ticker (HB.period t) r (k + 1) - HBP.begins .ticker (HB.period t) r k ≤ t :=
+  HBP.gap_le_timeout t ht r hr k
+
+/-- non-vacuity: timeout 400 ms, every refresh takes 150 ms: the ticker keeps the grid, a timer per iteration drifts -/
+example : HBP.begins .ticker (HB.period 400) (fun _ => 150) 3 = 1600 ∧
+    HBP.begins .perIteration (HB.period 400) (fun _ => 150) 3 = 2050 ∧
+    HBP.begins .ticker (HB.period 2300) (fun _ => 150) 3 = 1200 := by decide
+
+/-- REFUTED for a loop paced by a timer armed anew in every iteration (`case <-time.After(d)`): for every timeout up
+    to 2 s the gap between two refreshes exceeds the announced timeout as soon as a refresh takes any time. -/
+theorem c16_timer_per_iteration_refuted (t : Nat) (ht : t ≤ 2000) (r : Nat → Nat) (k : Nat) (hk : 0 < r k) :
+    t < HBP.begins .perIteration (HB.period t) r (k + 1) - HBP.begins .perIteration (HB.period t) r k :=
+  HBP.perIteration_exceeds t ht r k hk
+
+example : HBP.begins .perIteration (HB.period 400) (fun _ => 150) 1 - HBP.begins .perIteration (HB.period 400) (fun _ => 150) 0 = 550 := by
+  decide
+
+/-- "carrying … a current timestamp": the text of a refresh made at instant `now` (ms since the epoch), read as the
+    UTC text it claims to be, denotes `now` up to the resolution of the text — in every local zone of the process. -/
+theorem c16_timestamp_current (now zone : Int) :
+    HBS.denoted {} now zone - now ≤ 500 ∧ now - HBS.denoted {} now zone ≤ 500 :=
+  HBS.current now zone
+
+example : HBS.denoted {} 1790609334766 7200 = 1790609335000 := by decide
+
+/-- REFUTED for a refresh that formats the LOCAL wall-clock reading with the literal `Z`: in a zone two hours east of
+    UTC the text denotes an instant two hours ahead. -/
+theorem c16_timestamp_local_reading_refuted (now : Int) :
+    HBS.denoted { utc := false } now 7200 = HBS.denoted {} now 7200 + 7200000 :=
+  HBS.local_reading_off now 7200
+
+example : HBS.denoted { utc := false } 1790609334766 7200 = 1790616535000 := by decide
+
+/-- the timestamp is current in a zone at least a quarter of an hour off UTC ⇔ the UTC reading is used -/
+theorem c16_timestamp_current_iff (c : HBS.Cfg) (now zone : Int) (hz : 900 ≤ zone ∨ zone ≤ -900) :
+    (HBS.denoted c now zone - now ≤ 500 ∧ now - HBS.denoted c now zone ≤ 500) ↔ c.utc = true :=
+  HBS.current_iff c now zone hz
+
+example : (900 : Int) ≤ 7200 ∨ (7200 : Int) ≤ -900 := by decide
 
 end Spine.Props.C16
